@@ -169,6 +169,7 @@ Definition st_getidle (s : state) (e c : nat) : option state :=
   | CGet =>
     let k := conns s c in let f := fl k in
     if t_closed s then None
+    else if negb (c <? nconn s) then None      (* not a connection *)
     else if negb (f_inidle f) then None
     else if f_closed f then          (* exitIdle: closed -> true; delete(conns, c); continue *)
       Some (set_conn s c (set_fl k (mkFl (f_serving f) (f_closed f) (f_armed f) (f_sock f) false false)))
